@@ -48,8 +48,12 @@ fn transformer(name: &str) -> Value {
 }
 
 fn observe(router: &Router<Rule>, config: &RouterConfig, path: &str, host: Option<String>, hdr: Option<(String, String)>) -> Value {
+    observe_many(router, config, path, host, hdr.into_iter().collect())
+}
+
+fn observe_many(router: &Router<Rule>, config: &RouterConfig, path: &str, host: Option<String>, hdrs: Vec<(String, String)>) -> Value {
     let mut req = Request::from_config(config, path.to_string(), host, Some("http".to_string()), None, None, None);
-    if let Some((n, v)) = hdr {
+    for (n, v) in hdrs {
         req.add_header(n, v, config.ignore_header_case);
     }
     let routes = router.match_request(&req);
@@ -101,6 +105,14 @@ pub fn run(case: &Value) -> Vec<Value> {
     let host = if has("host") { Some(instantiate(&r["host"], inst)) } else { Some("example.com".to_string()) };
     let hv = if has("hdr") { Some(instantiate(&r["hdr"], inst)) } else { None };
     let o1 = observe(&router, &config, &path, host.clone(), hv.clone().map(|v| ("X-K".to_string(), v)));
+    // the header sent several times: a value the pattern cannot accept after / before the instantiated one
+    let (oa, ob) = match &hv {
+        Some(v) => (
+            observe_many(&router, &config, &path, host.clone(), vec![("X-K".to_string(), v.clone()), ("X-K".to_string(), "zz".to_string())]),
+            observe_many(&router, &config, &path, host.clone(), vec![("X-K".to_string(), "zz".to_string()), ("X-K".to_string(), v.clone())]),
+        ),
+        None => (o1.clone(), o1.clone()),
+    };
     let o2 = observe(&router, &config, &path, host, hv.map(|v| ("x-k".to_string(), v)));
-    vec![json!({"ev": "marker", "rule": r, "inst": inst, "o": o1, "olc": o2})]
+    vec![json!({"ev": "marker", "rule": r, "inst": inst, "o": o1, "olc": o2, "oa": oa, "ob": ob})]
 }
